@@ -772,9 +772,12 @@ Lemma restart_recovers s order :
   s_mgr (fst r) = Some (fresh_mgr (s_cfg s)) /\ s_log (fst r) = s_log s /\ s_now (fst r) = s_now s /\
   s_cfg (fst r) = s_cfg s.
 Proof.
-  destruct s as [c sto now mg log]. cbn [s_store s_cfg s_log s_now]. intros O.
-  cbn [run]. unfold step at 1. cbn [with_mgr s_cfg s_store s_now s_log].
-  unfold step. cbn [s_mgr s_store s_cfg s_now s_log]. rewrite O. cbn [fst snd s_store s_mgr s_log s_now s_cfg].
+  destruct s as [c sto now mg log]. cbn [s_store s_cfg s_log s_now]. intros O. cbv zeta.
+  assert (R : run (mks c sto now mg log) [OpCrash; OpStart order] =
+              (mks c (mark_failed_all order now sto) now (Some (fresh_mgr c)) log, [ODone; ODone])).
+  { cbn [run]. unfold step at 1. unfold with_mgr. cbn [s_cfg s_store s_now s_log].
+    unfold step. cbn [s_mgr s_store s_cfg s_now s_log]. rewrite O. reflexivity. }
+  rewrite R. cbn [fst snd s_store s_mgr s_log s_now s_cfg].
   repeat split; try reflexivity.
   - apply ids_mark_failed_all.
   - apply all_failed. intros t. rewrite pendingb_mark_failed_all.
@@ -789,4 +792,155 @@ Lemma start_crash_keeps s order k :
 Proof.
   destruct s as [c sto now mg log]. unfold step. cbn [s_mgr s_store s_cfg s_now s_log].
   destruct mg; [reflexivity|]. destruct (order_ok _ _); [|reflexivity]. cbn. apply ids_mark_failed_all.
+Qed.
+
+(* ------------------------------------------------------------------ progress *)
+
+Definition legal (outs : list out) : Prop := ~ In OIllegal outs.
+
+(* the fair schedule for one element of the poller's snapshot: retry it, the retry worker takes
+   it at once, the execution fails, the worker records the failure *)
+Definition round_fail (t : N) : list op := [OpPollNext; OpPollEnq; OpDeq QRe; OpExecRet t false; OpExecFin t].
+Definition round_exec : list op := [OpPollNext; OpPollEnq; OpDeq QRe].
+
+Ltac nf :=
+  unfold with_mgr, with_sm, push, has_room;
+  repeat (unfold set_add, set_poll, set_work, set_queue, set_idle, queue_of, idle_of, cap_of;
+          cbn [s_cfg s_store s_now s_mgr s_log m_closed m_in m_re m_idle_in m_idle_re m_work m_add m_poll
+               fst snd w_q w_t w_ph is_run is_fin pick]).
+
+Lemma cfg_ok_rebuf c : cfg_ok c = true -> 0 <? c_rebuf c = true.
+Proof.
+  unfold cfg_ok. intros H. repeat (apply andb_true_iff in H as [H ?]).
+  apply N.ltb_lt. match goal with K : (1 <=? c_rebuf c) = true |- _ => apply N.leb_le in K; lia end.
+Qed.
+
+Lemma round_exec_run c sto now cl qi ii ir ad r rest log :
+  cfg_ok c = true -> 0 <? ir = true -> due (c_ri c) now r = true -> storedb (r_id r) sto = true ->
+  run (mks c sto now (Some (mkm cl qi [] ii ir [] ad (Some (PLoop (r :: rest))))) log) round_exec
+  = (mks c (mark_pending (r_id r) sto) now
+         (Some (mkm cl qi [] ii (ir - 1) [mkw QRe (r_id r) WRun] ad (Some (PLoop rest)))) (EStart (r_id r) :: log),
+     [OMarked (r_id r); OSent; ODeq (r_id r)]).
+Proof.
+  intros C I D S. unfold round_exec. cbn [run].
+  unfold step at 1. nf. rewrite D, S. nf.
+  unfold step at 1. nf. unfold len. cbn [length N.of_nat]. rewrite (cfg_ok_rebuf c C). nf. cbn [app].
+  unfold step at 1. nf. rewrite I. reflexivity.
+Qed.
+
+Lemma round_fail_run c sto now cl qi ii ir ad r rest log :
+  cfg_ok c = true -> 0 <? ir = true -> due (c_ri c) now r = true -> storedb (r_id r) sto = true ->
+  exists sto' o5,
+  run (mks c sto now (Some (mkm cl qi [] ii ir [] ad (Some (PLoop (r :: rest))))) log) (round_fail (r_id r))
+  = (mks c sto' now (Some (mkm cl qi [] ii ir [] ad (Some (PLoop rest))))
+         (ERet (r_id r) false :: EStart (r_id r) :: log),
+     [OMarked (r_id r); OSent; ODeq (r_id r); ODone; o5]) /\ o5 <> OIllegal /\ ids sto' = ids sto.
+Proof.
+  intros C I D S.
+  change (round_fail (r_id r)) with (round_exec ++ [OpExecRet (r_id r) false; OpExecFin (r_id r)]).
+  rewrite run_app, (round_exec_run c sto now cl qi ii ir ad r rest log C I D S).
+  cbn [run].
+  unfold step at 1. nf. rewrite N.eqb_refl. cbn [andb]. nf. cbn [app].
+  unfold step at 1. nf. rewrite N.eqb_refl. cbn [andb]. nf. cbn [app].
+  assert (E : ir - 1 + 1 = ir) by (apply N.ltb_lt in I; lia). rewrite E.
+  eexists. eexists. split; [reflexivity|]. split.
+  - destruct (storedb (r_id r) (mark_pending (r_id r) sto)); discriminate.
+  - rewrite ids_mark_failed, ids_mark_pending. reflexivity.
+Qed.
+
+Lemma legal_app a b : legal a -> legal b -> legal (a ++ b).
+Proof. unfold legal. intros Ha Hb H. apply in_app_or in H. tauto. Qed.
+
+Lemma poll_progress c now cl qi ii ir ad t :
+  cfg_ok c = true -> 0 <? ir = true ->
+  forall snap sto log,
+  (forall r, In r snap -> due (c_ri c) now r = true /\ storedb (r_id r) sto = true) ->
+  In t (map r_id snap) ->
+  exists ops s' outs l,
+    run (mks c sto now (Some (mkm cl qi [] ii ir [] ad (Some (PLoop snap)))) log) ops = (s', outs) /\
+    legal outs /\ s_log s' = l ++ log /\ In (EStart t) l.
+Proof.
+  intros C I. induction snap as [|r rest IH]; intros sto log H Hin; [destruct Hin|].
+  destruct (H r (or_introl eq_refl)) as [D S].
+  destruct (N.eq_dec (r_id r) t) as [E|E].
+  - exists round_exec. eexists. eexists. exists [EStart t].
+    rewrite (round_exec_run c sto now cl qi ii ir ad r rest log C I D S). rewrite E.
+    split; [reflexivity|]. split; [|split; [reflexivity|left; reflexivity]].
+    intros K. cbn in K. repeat (destruct K as [K|K]; [discriminate|]). exact K.
+  - destruct (round_fail_run c sto now cl qi ii ir ad r rest log C I D S) as [sto' [o5 [R [O5 Ids]]]].
+    destruct (IH sto' (ERet (r_id r) false :: EStart (r_id r) :: log)) as [ops [s' [outs [l [R2 [L2 [Lg In2]]]]]]].
+    + intros x Hx. destruct (H x (or_intror Hx)) as [D' S']. split; [assumption|].
+      rewrite (storedb_ids sto' sto) by assumption. assumption.
+    + destruct Hin as [Hin|Hin]; [contradiction|assumption].
+    + exists (round_fail (r_id r) ++ ops), s'. eexists. exists (l ++ [ERet (r_id r) false; EStart (r_id r)]).
+      rewrite run_app, R, R2. split; [reflexivity|]. split; [|split].
+      * apply legal_app; [|assumption]. intros K. cbn in K.
+        repeat (destruct K as [K|K]; [try discriminate; try contradiction|]); exact K.
+      * rewrite Lg, <- app_assoc. reflexivity.
+      * apply in_or_app. left. assumption.
+Qed.
+
+Definition row_span (r : row) : N := r_delay r + r_created r + match r_last r with Some l => l | None => 0 end.
+Definition span (s : store) : N := fold_right (fun r acc => row_span r + acc) 0 s.
+
+Lemma span_ge s r : In r s -> row_span r <= span s.
+Proof.
+  induction s as [|x s IH]; intros H; [destruct H|].
+  change (span (x :: s)) with (row_span x + span s). destruct H as [->|H]; [lia|].
+  specialize (IH H). lia.
+Qed.
+
+Lemma due_after ri now s r : In r s -> due ri (now + (ri + 1 + span s)) r = true.
+Proof.
+  intros H. pose proof (span_ge s r H) as G. unfold row_span in G. unfold due, ready.
+  apply andb_true_iff. split.
+  - apply N.leb_le. lia.
+  - destruct (r_last r) as [l|]; [|reflexivity]. apply N.ltb_lt. lia.
+Qed.
+
+Lemma filter_all {A} (f : A -> bool) l : (forall x, In x l -> f x = true) -> filter f l = l.
+Proof.
+  induction l as [|x l IH]; intros H; cbn; [reflexivity|].
+  rewrite (H x (or_introl eq_refl)). f_equal. apply IH. intros; apply H; right; assumption.
+Qed.
+
+Lemma cfg_ok_rew c : cfg_ok c = true -> 0 <? c_rew c = true.
+Proof.
+  unfold cfg_ok. intros H. repeat (apply andb_true_iff in H as [H ?]).
+  apply N.ltb_lt. match goal with K : (1 <=? c_rew c) = true |- _ => apply N.leb_le in K; lia end.
+Qed.
+
+(* C30 clause (progress is always possible): from every state satisfying the invariant, for every
+   stored task there is a legal continuation (restart, let the retry interval pass, one pass of
+   the poller with the retry worker taking each task at once) in which the executor is invoked
+   on that task once more *)
+Theorem progress_possible s t :
+  Inv s -> cfg_ok (s_cfg s) = true -> storedb t (s_store s) = true ->
+  exists ops s' outs l, run s ops = (s', outs) /\ legal outs /\ s_log s' = l ++ s_log s /\ In (EStart t) l.
+Proof.
+  destruct s as [c sto now mg log]. intros [Hn _] C S. cbn [s_cfg s_store s_log] in *.
+  set (order := pending_ids sto).
+  assert (O : order_ok order (pending_ids sto) = true)
+    by (apply order_ok_refl; unfold order, pending_ids; apply NoDup_ids_filter; assumption).
+  destruct (restart_recovers (mks c sto now mg log) order O) as [R1 [R2 [R3 [R4 [R5 [R6 R7]]]]]].
+  destruct (run (mks c sto now mg log) [OpCrash; OpStart order]) as [s1 o1] eqn:Run1.
+  cbn [fst snd s_store s_cfg s_log s_now] in *. destruct s1 as [c1 sto1 now1 mg1 log1].
+  cbn [s_store s_cfg s_log s_now s_mgr] in *. subst c1 now1 log1 mg1 o1.
+  assert (Hn1 : NoDup (ids sto1)) by (rewrite R2; assumption).
+  set (big := c_ri c + 1 + span sto1).
+  assert (F : failed_ids sto1 = ids sto1).
+  { unfold failed_ids. rewrite filter_all; [reflexivity|]. intros x Hx. unfold is_failed. rewrite (R3 x Hx). reflexivity. }
+  assert (Run2 : run (mks c sto1 now (Some (fresh_mgr c)) log) [OpTick big; OpPollGet (ids sto1)] =
+                 (mks c sto1 (now + big) (Some (mkm false [] [] (c_inw c) (c_rew c) [] [] (Some (PLoop sto1)))) log, [ODone; ODone])).
+  { cbn [run]. unfold step at 1. cbn [s_cfg s_store s_now s_mgr s_log].
+    unfold step. cbn [s_cfg s_store s_now s_mgr s_log fresh_mgr m_poll]. rewrite F, (order_ok_refl _ Hn1).
+    rewrite (get_rows_ids sto1 Hn1). reflexivity. }
+  destruct (poll_progress c (now + big) false [] (c_inw c) (c_rew c) [] t C (cfg_ok_rew c C) sto1 sto1 log)
+    as [ops [s' [outs [l [R [L [Lg Hin]]]]]]].
+  - intros r Hr. split; [apply due_after; assumption|]. apply storedb_In. apply in_map. assumption.
+  - change (In t (ids sto1)). rewrite R2. apply storedb_In. assumption.
+  - exists ([OpCrash; OpStart order] ++ [OpTick big; OpPollGet (ids sto1)] ++ ops), s'. eexists. exists l.
+    rewrite run_app, Run1, run_app, Run2, R. split; [reflexivity|]. split; [|auto].
+    apply legal_app; [|apply legal_app; [|assumption]]; intros K; cbn in K;
+      repeat (destruct K as [K|K]; [discriminate|]); exact K.
 Qed.
